@@ -4,3 +4,6 @@ import AJ.Props.C06Doc
 import AJ.Props.C05Deser
 import AJ.Props.C05MpDeser
 import AJ.Props.C06Mem
+import AJ.Props.C06FExact
+import AJ.Props.C05FMpDeser
+import AJ.Props.C05FDeser
